@@ -112,18 +112,21 @@ func genVLists(r *vh.Rand) []string {
 // genCsvOpts: the options of a file/csv source: delimiter among "," ";" tab blank "|" (or not written),
 // field names from the `fields` option or from the first line of the file, ignore_first_line.
 // A third of the tables keep the plain form (fields, comma, no first line to ignore).
-// Not generated: no `fields` option together with ignore_first_line: true (the documentation says the
-// fields are then named by ordinal numbers, the code names them after the ignored line; see design/C15.md).
+// No `fields` option together with ignore_first_line: true = the first line names the fields and is no row
+// (pinned by pandora's own vs_csv_test "empty fields and skip header"; the sentence of the documentation about
+// ordinal numbers only holds for EMPTY names in that line; see design/C15.md).
 func genCsvOpts(r *vh.Rand) string {
 	if r.Chance(1, 3) {
 		return ""
 	}
 	d := r.Pick([]string{"2c", "3b", "09", "09", "20", "20", "7c", "--"})
-	switch r.Intn(3) {
+	switch r.Intn(4) {
 	case 0:
 		return "~" + d + "fn"
 	case 1:
 		return "~" + d + "fi"
+	case 2:
+		return "~" + d + "hi"
 	default:
 		return "~" + d + "hn"
 	}
@@ -479,6 +482,9 @@ func gen(r *vh.Rand, tier string) []string {
 	}
 	for i := 0; i < 150*mul; i++ {
 		out = append(out, genTmplCase(r))
+	}
+	for i := 0; i < 150*mul; i++ {
+		out = append(out, genCsvCase(r))
 	}
 	for i := 0; i < 6*mul; i++ {
 		rounds := 10000 // start-up rounds per case; a racy first call shows within ~5 (16 cores) to ~300 (2 cores) rounds
